@@ -262,12 +262,45 @@ fn shard(seed: u64, shard: u64, n: u64) -> Tally {
     t
 }
 
+/// The listed finding D7 under folding: a conformant folded request whose path carries a literal '+'.
+fn plus_in_path(seed: u64, shard: u64, n: u64) -> Tally {
+    let mut t = Tally::new();
+    for i in 0..n {
+        let mut r = Rng::keyed(seed, "C12", "plus", shard, i);
+        let mut cfg = gen_cfg(&mut r);
+        cfg.s3 = false;
+        cfg.fold = true;
+        let o = GenOpts {
+            literal_plus_in_path: true,
+            allow_form: false,
+            ..Default::default()
+        };
+        let mut l = gen_logical(&mut r, &cfg, &o);
+        l.method = "POST".into();
+        l.form_pairs = Some(gen_pairs(&mut r, 4));
+        l.body.clear();
+        l.content_type = Some(b"application/x-www-form-urlencoded".to_vec());
+        let present = crate::gen::present_header_names(&l);
+        l.signed.retain(|s| present.contains(s));
+        let mut sr = Rng::keyed(seed, "C12", "plus-spell", shard, i);
+        let mut sp = Speller {
+            r: &mut sr,
+            level: 0,
+        };
+        let (case, _) = make_case(&l, &cfg, &mut sp, &Overrides::default(), 0);
+        let _ = judge_one(&mut t, &case, "form/literal-plus-in-path/fold-on");
+    }
+    t
+}
+
 pub fn run(tier: Tier) -> i32 {
     let mut ctx = Ctx::new("C12", tier);
     let pre = preflight();
     let seed = ctx.seed;
     let per = tier.n(500, 12_000);
     let mut tally = ctx.par(32, |s| shard(seed, s, per));
+    let plus = ctx.par(4, |s| plus_in_path(seed, s, tier.n(10, 200)));
+    tally.merge(plus);
     if let Err(e) = &pre {
         tally.inconclusive.push(e.clone());
     }
